@@ -100,14 +100,14 @@ def nontrivial(c):
     return False
 
 
-def run_variant(ck, variant, crate, exe, checker, seed, n, have_model):
+def run_variant(ck, variant, crate, exe, checker, seed, n, have_model, exh, plen):
     pid = ck.pid
     ok, out, dt = vlib.cargo_build(crate, bin=exe)
     ck.log("cargo build %s: ok=%s (%.0fs)" % (crate, ok, dt))
     if not ok:
         ck.problem("tie", "harness build failed (%s):\n%s" % (crate, out[-3000:]))
         return None
-    rc, so, se, dt = vlib.run_bin(exe, ["--seed", seed, "--n", n])
+    rc, so, se, dt = vlib.run_bin(exe, ["--seed", seed, "--n", n, "--exh", exh, "--plen", plen])
     cases = vlib.jsonl(so)
     if rc != 0:
         ck.problem("tie", "harness %s ended abnormally rc=%d: %s" % (exe, rc, se[-1500:]))
@@ -184,6 +184,9 @@ def run_variant(ck, variant, crate, exe, checker, seed, n, have_model):
         "cases": cases,
         "stats": {
             "build": [v[4] for v in VARIANTS if v[0] == variant][0],
+            "exhaustive_identifier_length": exh,
+            "exhaustive_parse_text_length": plen,
+            "random_n": n,
             "evaluations": len(cases),
             "case_kinds": kinds,
             "inside_hypothesis": len(inside),
@@ -210,7 +213,10 @@ def run(pid, tier, seed, replay):
         if only and variant not in only:
             ck.notes.append("build %s skipped (C52_VARIANTS=%s)" % (variant, ",".join(only)))
             continue
-        r = run_variant(ck, variant, crate, exe, checker, seed, n, have_model)
+        # quick tier: the fallback-parser build gets the shorter exhaustive ranges (its parser is a 20-line splitter)
+        exh, plen = (3, 4) if (tier != "quick" or variant == "sql") else (2, 3)
+        r = run_variant(ck, variant, crate, exe, checker, seed, n if (tier != "quick" or variant == "sql") else n // 2,
+                        have_model, exh, plen)
         if r:
             results.append(r)
     if not results:
@@ -220,7 +226,7 @@ def run(pid, tier, seed, replay):
     ck.coverage.update({
         "evaluations": len(allc),
         "distinct_nontrivial": distinct,
-        "rule": "per build (sql / nosql), same generator: exhaustive: every string of length <=3 over {a A 1 _ . \" space e-acute newline} (820) "
+        "rule": "per build (sql / nosql), same generator (quick tier: the nosql build uses length <=2 / parse texts <=3 / n/2, see per_build): exhaustive: every string of length <=3 over {a A 1 _ . \" space e-acute newline} (820) "
                 "as a bare reference, in each position of 2- and 3-part references, as column name and in relation positions (other parts random); "
                 "full products over strings of length <=1; 40 fixed words (keywords, literal prefixes b r n nq q e u x, digit-first, quotes, dots); "
                 "random 0..6-char strings over a 56-symbol nasty alphabet (both cases, digits, _ . \" ' ` space tab CR LF backslash NUL VT, non-ASCII "
